@@ -13,8 +13,8 @@ type headerScanner struct {
 	r int
 
 	// blockEnd is the end of the header block in b when the caller has
-	// already found it (see readRawHeaders), 0 otherwise. next only trusts
-	// it if the block really ends in CRLFCRLF there.
+	// already found it (see readRawHeaders), 0 otherwise. next only accepts
+	// the block if the blank line ending it is CRLF.
 	blockEnd int
 
 	key   []byte
@@ -34,11 +34,15 @@ func (s *headerScanner) next() bool {
 			return false
 		}
 
-		if s.blockEnd >= 4 && s.blockEnd <= len(s.b) &&
-			bytes.Equal(s.b[s.blockEnd-4:s.blockEnd], strCRLFCRLF) {
+		if s.blockEnd > 0 {
 			// The caller already found the end of the block, no need to
-			// search for it again. The first CRLFCRLF can only sit at
-			// blockEnd-4 since readRawHeaders stops at the first blank line.
+			// search for it again. Whether the block is accepted must not
+			// depend on what follows it: the blank line has to be CRLF.
+			if s.blockEnd < 3 || s.blockEnd > len(s.b) ||
+				s.b[s.blockEnd-3] != nChar || s.b[s.blockEnd-2] != rChar {
+				s.err = errors.New("invalid headers, the header block must end with an empty CRLF line")
+				return false
+			}
 			s.b = s.b[:s.blockEnd]
 		} else {
 			i := bytes.Index(s.b, strCRLFCRLF)
